@@ -3,7 +3,7 @@ GenEq3 — the side conditions of GenEq.lean (`SumOk`: non-zero float denominato
 summary the tree can hold, on the whole no-wrap range `n·Σk < 2^64`; and the error bound of C11 for the
 generated `jt_isim_from_sum`.
 -/
-import BBProofs.GenEq2
+import BBProofs.GenEq
 import BBProofs.IsimErr
 
 namespace BB
